@@ -105,6 +105,23 @@ CHECKS = {
    technique="Coq proof (big-endian codec lemmas, list algebra) + differential correspondence incl. shared-object and "
              "concurrent evaluation",
    ref="5/C07"),
+ "C11": dict(
+   text="Coq theorems over the value-level bn256 model (Models/Bn.v: F_p, F_p^2, Jacobian add/double/scalar-mul with the "
+        "formulas of curve.go/twist.go, the codecs of point.go): every point of the G1 curve in any Jacobian representation "
+        "(identity included) decodes back to its affine form after encoding (C11_roundtrip_g1); fixed lengths 64/129/32; G1 "
+        "encodings are injective on affine points; too-short input is an error; whatever decodes satisfies the curve equation "
+        "and, for G2, [Order]P = O (C11_decoded_in_subgroup_g2); scalars round-trip and decode only from 32-byte values below "
+        "the order. The decoders are total functions into option (no panic by type). Tie: correspondence of the extracted "
+        "model (it recomputes curve membership and the 254-bit subgroup multiplication itself) with the real UnmarshalBinary / "
+        "MarshalBinary on 1700 byte strings: every length 0..2*size, bit flips, coordinate swaps, unreduced coordinates, zero "
+        "coordinates, twist points outside the subgroup (built with an F_p^2 square root), random bytes, receiver reuse; plus "
+        "go-ethereum's big-integer bn256 as independent reference for canonical encodings.",
+   note=TB + "G2 round-trip and injectivity, and everything about GT, are established by the correspondence run and the "
+        "judge, not by a theorem (GT decoding checks length only, as in the code). Curve constants are copied into the model "
+        "and checked by the run (Base encodings).",
+   technique="Coq proof (byte-codec lemmas + case analysis of the decoders over the concrete curve) + differential "
+             "correspondence on mutated encodings",
+   ref="5/C11"),
  "C13": dict(
    text="Coq theorems over the Gallina model of DosNode.queryLoop (Models/QueryLoop.v): for EVERY event sequence (arrivals, "
         "registrations, cancellations, watchdog sweeps, any interleaving, any number of requests) the shares handed to a "
